@@ -359,7 +359,7 @@ def run_impl(case):
     """-> (observation, lean_request, info)"""
     from bluesky.utils import PersistentDict
 
-    tmp = tempfile.mkdtemp(prefix="verif_c43_", dir="/tmp")
+    tmp = tempfile.mkdtemp(prefix="verif_c43_")
     steps, req_ops, law_bad, notes = [], [], [], []
     d = None
     try:
@@ -611,7 +611,7 @@ def _probe_nonstr_map_key(res):
     """labelled probe, outside the round-trip law: a nested mapping with a non-str key can be stored but not loaded"""
     from bluesky.utils import PersistentDict
 
-    tmp = tempfile.mkdtemp(prefix="verif_c43_", dir="/tmp")
+    tmp = tempfile.mkdtemp(prefix="verif_c43_")
     try:
         d = PersistentDict(tmp)
         d["k"] = {1: 2}
